@@ -78,6 +78,8 @@ func fuzzWorld() (*world, [][]byte, error) {
 			{Kind: "set", Field: 7, Src: "other", Other: 6}, {Kind: "unknown", N: 2, Lit: []byte("xyz")}, {Kind: "wrongtype", Field: 9, V: 1},
 			{Kind: "reverse"}, {Kind: "truncate", Pos: 40}, {Kind: "flip", Field: 9, Pos: 30, Mask: 1}, {Kind: "flip", Field: 8, Pos: 3, Mask: 0x80},
 			{Kind: "altdata", N: 0, Mask: 1}, {Kind: "altdata", N: 2},
+			{Kind: "recbor", N: 0}, {Kind: "recbor", N: 1, Pos: 2}, {Kind: "recbor", N: 2, Pos: 1}, {Kind: "recbor", N: 3}, {Kind: "recbor", N: 4},
+			{Kind: "recbor", N: 5, Pos: 3}, {Kind: "recbor", N: 5, Pos: 0, Mask: 1}, {Kind: "recbor", N: 6, Pos: 1}, {Kind: "recbor", N: 7}, {Kind: "recbor", N: 8}, {Kind: "recbor", N: 9},
 		} {
 			for _, base := range []int{0, 1} {
 				mu.builts[0], mu.builts[base] = mu.builts[base], mu.builts[0]
